@@ -176,6 +176,30 @@ theorem respSet_noBatch (lazy sharded : Bool) (without : List Bytes) (st : Store
     | warning m => simp
     | hints m => simp
 
+/-- the series frames of a list in the order a client reads them -/
+theorem seriesOf_append (a b : List Frame) : seriesOf (a ++ b) = seriesOf a ++ seriesOf b := by
+  simp [seriesOf]
+
+theorem seriesOf_nonSeries : ∀ (a : List Frame), (∀ x ∈ a, x.isSeries = false) → seriesOf a = []
+  | [], _ => rfl
+  | x :: r, h => by
+    have hx := h x (by simp)
+    have ih := seriesOf_nonSeries r (fun y hy => h y (List.mem_cons_of_mem _ hy))
+    cases x with
+    | series s => simp [Frame.isSeries] at hx
+    | warning m => simpa [seriesOf] using ih
+    | hints m => simpa [seriesOf] using ih
+    | batch b => simpa [seriesOf] using ih
+
+theorem mem_seriesOf {fs : List Frame} {s : Series} : s ∈ seriesOf fs ↔ Frame.series s ∈ fs := by
+  simp only [seriesOf, List.mem_filterMap]
+  constructor
+  · rintro ⟨f, hf, h⟩
+    cases f <;> simp at h
+    subst h; exact hf
+  · intro h
+    exact ⟨_, h, rfl⟩
+
 /-! ### the deduplicator loop -/
 
 /-- non-series responses pass through the deduplicator -/
@@ -328,6 +352,52 @@ theorem dedupGo_series (fixed : Bool) : ∀ (fs : List Frame) (same : Option (Se
     rcases h with h | h
     · left; simpa [seriesOf] using h
     · exact Or.inr h
+
+theorem dedup_noBatch (fixed : Bool) : ∀ (fs : List Frame) (same : Option (Series × List Series)) (pending : List Frame),
+    (∀ f ∈ fs, ∀ ss, f ≠ .batch ss) → (∀ f ∈ pending, ∀ ss, f ≠ .batch ss) →
+    ∀ f ∈ dedupGo fixed same pending fs, ∀ ss, f ≠ .batch ss
+  | [], same, pending, _, hp, f, hf, ss => by
+    unfold dedupGo at hf
+    simp only [List.mem_append] at hf
+    rcases hf with hf | hf
+    · exact hp f hf ss
+    · cases same with
+      | none => simp at hf
+      | some p => simp at hf; subst hf; simp
+  | .series s :: rest, same, pending, h, hp, f, hf, ss => by
+    have h' : ∀ f ∈ rest, ∀ ss, f ≠ .batch ss := fun g hg => h g (List.mem_cons_of_mem _ hg)
+    unfold dedupGo at hf
+    cases same with
+    | none => exact dedup_noBatch fixed rest _ _ h' hp f hf ss
+    | some p =>
+      obtain ⟨f0, r⟩ := p
+      simp only at hf
+      split at hf
+      · exact dedup_noBatch fixed rest _ _ h' hp f hf ss
+      · simp only [List.mem_append, List.mem_cons] at hf
+        rcases hf with hf | rfl | hf
+        · exact hp f hf ss
+        · simp
+        · exact dedup_noBatch fixed rest _ _ h' (by simp) f hf ss
+  | .warning m :: rest, same, pending, h, hp, f, hf, ss => by
+    have h' : ∀ f ∈ rest, ∀ ss, f ≠ .batch ss := fun g hg => h g (List.mem_cons_of_mem _ hg)
+    unfold dedupGo at hf
+    refine dedup_noBatch fixed rest _ _ h' ?_ f hf ss
+    intro g hg
+    simp only [List.mem_append, List.mem_singleton] at hg
+    rcases hg with hg | rfl
+    · exact hp g hg
+    · simp
+  | .hints m :: rest, same, pending, h, hp, f, hf, ss => by
+    have h' : ∀ f ∈ rest, ∀ ss, f ≠ .batch ss := fun g hg => h g (List.mem_cons_of_mem _ hg)
+    unfold dedupGo at hf
+    refine dedup_noBatch fixed rest _ _ h' ?_ f hf ss
+    intro g hg
+    simp only [List.mem_append, List.mem_singleton] at hg
+    rcases hg with hg | rfl
+    · exact hp g hg
+    · simp
+  | .batch b :: rest, _, _, h, _, _, _, _ => absurd rfl (h (.batch b) (by simp) b)
 
 /-! ### the response loop (no limit) -/
 
@@ -525,5 +595,39 @@ theorem fanOut_abort (rq : Request) (hab : rq.abort = true) : ∀ (stores : List
         rcases hs with rfl | hs
         · simp
         · exact List.mem_cons_of_mem _ (ih.2 hf s hs)
+
+theorem fanOut_sets_from (rq : Request) : ∀ (stores : List Store),
+    ∀ set ∈ (fanOut rq stores).2.1, ∃ st ∈ stores, st.openErr = false ∧ set = respSet rq.lazy rq.sharded rq.without st
+  | [], set, h => by simp [fanOut] at h
+  | st :: rest, set, h => by
+    have ih := fanOut_sets_from rq rest
+    unfold fanOut at h
+    by_cases ho : st.openErr = true
+    · simp only [ho, if_true] at h
+      split at h
+      · simp at h
+      · obtain ⟨s, hs, h1, h2⟩ := ih set h
+        exact ⟨s, List.mem_cons_of_mem _ hs, h1, h2⟩
+    · have ho' : st.openErr = false := by simpa using ho
+      simp only [ho', Bool.false_eq_true, if_false, List.mem_cons] at h
+      rcases h with rfl | h
+      · exact ⟨st, by simp, ho', rfl⟩
+      · obtain ⟨s, hs, h1, h2⟩ := ih set h
+        exact ⟨s, List.mem_cons_of_mem _ hs, h1, h2⟩
+
+/-- what `proxySeriesWith` returns under the warn strategy without a limit, spelled out -/
+theorem proxy_warn_eq (merge : List (List Frame) → List Frame) (rq : Request) (stores : List Store)
+    (hab : rq.abort = false) (hlim : rq.limit = 0) :
+    (proxySeriesWith merge rq stores).1 =
+      serverOut rq.batchSize true ((fanOut rq stores).1 ++
+        (if rq.dedup then dedup rq.fixedDedup (merge (fanOut rq stores).2.1) else merge (fanOut rq stores).2.1)) := by
+  unfold proxySeriesWith
+  simp only [hab, Bool.and_false, Bool.false_eq_true, if_false]
+  have hfo := fanOut_warn rq hab stores
+  generalize fanOut rq stores = fo at hfo
+  obtain ⟨ow, sets, failed⟩ := fo
+  simp only at hfo ⊢
+  rw [hfo.1]
+  simp only [Bool.false_eq_true, if_false, hlim, respLoop_warn]
 
 end Thanos.Merge
